@@ -60,20 +60,27 @@ RULE = ('addresses are built from integers (col,row,col,row)+sheet and compared 
 BUDGET = {'quick': 25, 'thorough': 200}
 EXHAUSTIVE = {'quick': False, 'thorough': True}
 FLOORS = {
-    'quick': {'roundtrip_cases': 15000, 'roundtrip_parses_compared': 150000, 'roundtrip_bang_cases': 1500,
-              'sheetclass:space+apostrophe': 500, 'sheetclass:cell-lookalike': 2000, 'sheetclass:unicode': 1000,
-              'notation_cases': 6000, 'notation_texts_compared': 150000, 'notation_relative_wrap_texts': 20000,
+    # derived from the enumerated parts (exact there) or >= 5x below what the sampled loops add
+    'quick': {'roundtrip_cases': 23000, 'roundtrip_parses_compared': 150000, 'roundtrip_bang_cases': 2086,
+              'roundtrip_quoted_shape_checked': 5000,
+              'sheetclass:space+apostrophe': 1400, 'sheetclass:apostrophe': 800, 'sheetclass:cell-lookalike': 4000,
+              'sheetclass:unicode': 2300, 'sheetclass:digits': 1400, 'sheetclass:hyphen': 500,
+              'notation_cases': 7000, 'notation_texts_compared': 150000, 'notation_relative_wrap_texts': 20000,
+              'notation_corner_neighbourhood': 1764,
               'enum_cases': 400, 'enum_member_in': 3000, 'enum_outside_not_in': 5000,
-              'pair_cases': 70000, 'pair_null_results': 30000, 'pair_sheet_mismatch': 10000,
-              'pair_sheet_adoption': 20000, 'pair_string_operand': 5000, 'pair_idempotence': 500, 'pair_absorption': 50000,
-              'triple_cases': 200000, 'triple_null_intermediate': 100000, 'triple_mixed_sheet_cases': 2000,
-              'large_pair_cases': 1500, 'large_triple_cases': 1500,
-              'offset_cases': 15000, 'offset:wrap-col': 2000, 'offset:wrap-row': 2000, 'offset:multi-wrap': 2000},
-    'thorough': {'roundtrip_cases': 60000, 'roundtrip_bang_cases': 1500, 'notation_cases': 30000,
-                 'notation_relative_wrap_texts': 100000, 'enum_cases': 5000,
-                 'pair_cases': 70000, 'triple_cases': 1000000, 'triple_null_intermediate': 500000,
-                 'triple_mixed_sheet_cases': 50000, 'large_pair_cases': 50000, 'large_triple_cases': 50000,
-                 'offset_cases': 100000},
+              'pair_cases': 70000, 'pair_null_results': 25000, 'pair_sheet_mismatch': 10000,
+              'pair_sheet_adoption': 30000, 'pair_string_operand': 15000, 'pair_idempotence': 600,
+              'pair_absorption': 50000,
+              'triple_cases': 200000, 'triple_null_intermediate': 100000, 'triple_mixed_sheet_cases': 800,
+              'large_pair_cases': 400, 'large_triple_cases': 400,
+              'offset_cases': 13000, 'offset:wrap-col': 1500, 'offset:wrap-row': 1500, 'offset:multi-wrap': 3000},
+    'thorough': {'roundtrip_cases': 100000, 'roundtrip_bang_cases': 2086, 'notation_cases': 40000,
+                 'notation_relative_wrap_texts': 400000, 'notation_corner_neighbourhood': 1764,
+                 'enum_cases': 3000, 'pair_cases': 70000, 'pair_sheet_mismatch': 10000,
+                 'pair_sheet_adoption': 30000, 'pair_idempotence': 600,
+                 'triple_cases': 1000000, 'triple_null_intermediate': 500000,
+                 'triple_mixed_sheet_cases': 80000, 'large_pair_cases': 40000, 'large_triple_cases': 40000,
+                 'offset_cases': 70000},
 }
 ASSUMPTIONS = [
     'equality of addresses is Python equality of the pycel objects plus equality of the projection '
